@@ -147,7 +147,8 @@ uint32_t cop_deserialize_value(const uint8_t *buf, uint32_t buf_size,
         uint32_t len;
         memcpy(&len, buf + pos, 4);
         pos += 4;
-        if (pos + len > buf_size) return 0;
+        /* len is the peer's claim: compare it with what is left (pos + len wraps at 2^32) */
+        if (len > buf_size - pos) return 0;
         VmString *s = vm_string_new(heap, (const char *)(buf + pos), len);
         pos += len;
         *out = val_string(s);
@@ -170,6 +171,9 @@ uint32_t cop_deserialize_value(const uint8_t *buf, uint32_t buf_size,
         uint32_t count;
         memcpy(&count, buf + pos, 4);
         pos += 4;
+        /* every element takes at least one byte, so a count beyond the remaining bytes is
+         * garbage - and it must not size the allocation below */
+        if (count > buf_size - pos) return 0;
         VmArray *arr = vm_array_new(heap, etype, count > 0 ? count : 4);
         for (uint32_t i = 0; i < count; i++) {
             NanoValue elem;
